@@ -151,6 +151,8 @@ def check(run):
     dialect_agreement(run, 'comma', [34, 44, 32, 97], 44, 0, 6 if quick else 8)
     dialect_agreement(run, 'space', [34, 32, 97], 32, 0, 7 if quick else 9)
     dialect_agreement(run, 'colon2', [34, 58, 32, 97], 58, 58, 5 if quick else 7)
+    dialect_agreement(run, 'tab', [34, 9, 32, 97], 9, 0, 5 if quick else 7)
+    dialect_agreement(run, 'comma-with-tab', [34, 44, 9, 97], 44, 0, 5 if quick else 7)
     reader_agreement(run, 'base7', [97, 34, 44, 10, 13, 35, 32], 4 if quick else 6)
     codec_agreement(run, 'codec-comma', 'R_f2x2', 1, ['simple', 'quoted', 'quoted_rfc', 'monocolumn'], 44, 0)
     codec_agreement(run, 'codec-2rec', 'R_f1x2', 2, ['simple', 'quoted', 'quoted_rfc'], 44, 0)
